@@ -221,6 +221,18 @@ func extraKinds(ref *funcRef, kind string) []string {
 		if name == "_Mutation" {
 			out = append(out, "mutationroot")
 		}
+	case "field":
+		// the generated package has a field-directive dispatcher (some FIELD-location directive exists in the schema):
+		// then EVERY field function of the package, in whichever generated file it lives, goes through it
+		if ref.pkg != nil && ref.pkg.Types != nil {
+			if ref.pkg.Types.Scope().Lookup("_fieldMiddleware") != nil {
+				out = append(out, "fieldmw")
+			} else if ec, ok := ref.pkg.Types.Scope().Lookup("executionContext").(*types.TypeName); ok {
+				if m, _, _ := types.LookupFieldOrMethod(types.NewPointer(ec.Type()), true, ref.pkg.Types, "_fieldMiddleware"); m != nil {
+					out = append(out, "fieldmw")
+				}
+			}
+		}
 	}
 	if kind != "introspectgate" && kind != "servicegate" {
 		out = append(out, "nogatebypass")
